@@ -203,19 +203,19 @@ package libaudit
 //@ requires forall k int :: lo(events) <= k && k < hi(events) ==> at(events, k) != nil
 //@ modifies envlog
 //@ ensures[C01,C03] envlen() == old(envlen()) + len(events) + (if lost > 0 then 1 else 0)
-//@ ensures[C01] forall i int :: 0 <= i && i < len(events) ==> envkind(old(envlen()) + i) == envkindOf(libaudit.Stream.ReassemblyComplete) && envarg(old(envlen()) + i, 0) == base(events[i].msgs) && envarg(old(envlen()) + i, 1) == lo(events[i].msgs) && envarg(old(envlen()) + i, 2) == len(events[i].msgs)
+//@ ensures[C01] forall j int :: old(envlen()) <= j && j < old(envlen()) + len(events) ==> envkind(j) == envkindOf(libaudit.Stream.ReassemblyComplete) && envarg(j, 0) == base(events[j - old(envlen())].msgs) && envarg(j, 1) == lo(events[j - old(envlen())].msgs) && envarg(j, 2) == len(events[j - old(envlen())].msgs)
 //@ ensures[C03] lost > 0 ==> envkind(envlen() - 1) == envkindOf(libaudit.Stream.EventsLost) && envarg(envlen() - 1, 0) == lost
 //@ ensures[C01] forall i int :: 0 <= i && i < old(envlen()) ==> envkind(i) == old(envkind(i)) && (forall a int :: envarg(i, a) == old(envarg(i, a)))
 //@ loop 0 invariant -1 <= rangeindex && rangeindex < len(events)
 //@ loop 0 invariant envlen() == old(envlen()) + rangeindex + 1
-//@ loop 0 invariant forall i int :: 0 <= i && i <= rangeindex ==> envkind(old(envlen()) + i) == envkindOf(libaudit.Stream.ReassemblyComplete) && envarg(old(envlen()) + i, 0) == base(events[i].msgs) && envarg(old(envlen()) + i, 1) == lo(events[i].msgs) && envarg(old(envlen()) + i, 2) == len(events[i].msgs)
+//@ loop 0 invariant forall j int :: old(envlen()) <= j && j <= old(envlen()) + rangeindex ==> envkind(j) == envkindOf(libaudit.Stream.ReassemblyComplete) && envarg(j, 0) == base(events[j - old(envlen())].msgs) && envarg(j, 1) == lo(events[j - old(envlen())].msgs) && envarg(j, 2) == len(events[j - old(envlen())].msgs)
 //@ loop 0 invariant forall i int :: 0 <= i && i < old(envlen()) ==> envkind(i) == old(envkind(i)) && (forall a int :: envarg(i, a) == old(envarg(i, a)))
 
 // ---------------------------------------------------------------------------
 // The public operations.
 //
 //@ func libaudit.NewReassembler
-//@ requires maxInFlight >= 0 -- the property's domain (a negative capacity makes make() panic)
+//@ requires maxInFlight >= 0 && maxInFlight < 2147483648 -- the property's domain (a negative or wrapped capacity makes make() panic)
 //@ modifies alloc
 //@ ensures[C19] isNil(stream) ==> result0 == nil && result1 != nil
 //@ ensures[C19] !isNil(stream) ==> result1 == nil && fresh(result0) && result0.closed == 0 && result0.stream == stream && result0.list != nil
